@@ -564,7 +564,7 @@ class WorldFamily(Family):
     case = {"shape", "coords", "stored": [[key, spec]...], "derived": [[key, linkdesc]...],
             "view", "target", "arith"}"""
     with_strides = False
-    case_timeout = 20.0
+    case_timeout = 60.0
 
     def reset(self):
         self._aux = None
@@ -1082,7 +1082,7 @@ class HistFam(Family):
     name = "hist"
     exhaustive = False
     batch = 100
-    case_timeout = 20.0
+    case_timeout = 60.0
 
     def reset(self):
         self._aux = None
@@ -1289,7 +1289,7 @@ PROP = Property(
     title="Derived attributes compute their defining expression and go with their inputs",
     theorems=["C14.binary_compute_elementwise", "C14.expr_eval", "C14.link_compute_elementwise",
               "C14.getitem_elementwise", "C14.getitem_view_commutes",
-              "C14.remove_closure", "C14.depClosure_iff_reach", "C14.remove_absent", "C14.remove_spec",
+              "C14.remove_closure", "C14.depClosure_iff_reach", "C14.remove_keeps_inputs", "C14.remove_absent", "C14.remove_spec",
               "C14.update_id_preserves_order", "C14.update_id_preserves_values",
               "C14.update_id_breaks_dependents", "C14.parse_print"],
     families=[GramFam(), Bcl(), ExprFam(), ArithFam(), ULink(), ParsedFam(), HistFam()],
